@@ -3,7 +3,7 @@
 use crate::ctx::{finish, guard, run_streams, Local, Opts, Report, Stream};
 use crate::json::J;
 use crate::mon::common;
-use crate::mon::genhist::{compare_obs, feed, observe, GModel, FORM_NAMES, MAX_INPUT, N_FORMS};
+use crate::mon::genhist::{self, compare_obs, feed, observe, GModel, FORM_NAMES, MAX_INPUT, N_FORMS};
 use crate::rng::{fnv64, Rng};
 use crate::work::bytes::{self, Words};
 use ssdeep::Generator;
@@ -239,6 +239,50 @@ pub fn run(o: &Opts) -> i32 {
     };
     let wref = &words;
     let mut streams: Vec<Stream> = Vec::new();
+    // fixed hostile histories first (one case): late correct hint after top-level forks, refused hints,
+    // reset after the last-piece hash was active, small hint then large undeclared input
+    streams.push(Stream::new("hostile-histories", 1, move |_i, rng: &mut Rng, l: &mut Local| {
+        let top: Vec<u8> = wref[30][0].to_vec();
+        let mut h = Hist { g: Generator::new(), m: GModel::new(), log: Vec::new(), eliminated_before_reset: false, midstream_hint: false, resets: 0 };
+        let r = guard(|| {
+            // (1) forks to the top without a declaration, then a late correct declaration, then more top-level words
+            let pre = bytes::gen_kind(rng, 0, 300);
+            h.feed(rng, &pre);
+            h.feed(rng, &top);
+            let total = (pre.len() + 3 * top.len() + 5) as u64;
+            h.set_hint(l, total, false);
+            h.feed(rng, &top);
+            h.feed(rng, &[1, 2, 3, 4, 5]);
+            h.feed(rng, &top);
+            h.observe(l);
+            // (2) refused declarations leave everything as it was
+            h.set_hint(l, 7, false);
+            h.set_hint(l, genhist::MAX_INPUT + 1, true);
+            h.observe(l);
+            // (3) reset after the last-piece hash was active; small declaration; finalize; reset; larger undeclared input
+            h.reset(l);
+            h.set_hint(l, 40, false);
+            let small = bytes::gen_kind(rng, 4, 40);
+            h.feed(rng, &small);
+            h.observe(l);
+            h.reset(l);
+            let big = bytes::gen_kind(rng, 0, 590);
+            h.feed(rng, &big);
+            h.feed(rng, &top);
+            h.feed(rng, &[9]);
+            h.observe(l);
+            // (4) declared size smaller than what is fed: every finalization must refuse
+            h.reset(l);
+            h.set_hint(l, 10, true);
+            h.feed(rng, &top);
+            h.feed(rng, &top);
+            h.observe(l);
+        });
+        if let Err(p) = r {
+            let s = h.sig();
+            l.violation("totality", s, format!("generator panicked during [{}]: {}", h.log.join("; "), p));
+        }
+    }));
     streams.push(Stream::new("hint-reset-histories", o.n(40_000, 3_000_000), move |_i, rng: &mut Rng, l: &mut Local| {
         history(l, rng, wref);
     }));
